@@ -350,6 +350,39 @@ pub fn run(cfg: &Cfg) -> Report {
                 bad.push(format!("individuals with float totals {x} / {y}: partial_cmp = {:?}, the totals give {want:?}", a.partial_cmp(&b)));
             }
         } }
+        // the same individual compared with itself *through the same reference* is compared like any two individuals:
+        // a NaN total is not comparable to itself (no pointer-equality shortcut)
+        for &x in &fl {
+            let a: IndF = EcIndividual::new(1, TestResults { results: vec![Score(x)], total_result: Score(x) });
+            let r = &a;
+            #[allow(clippy::eq_op)]
+            let (pc, le, ge, lt, gt, eq) = (r.partial_cmp(r), r <= r, r >= r, r < r, r > r, r == r);
+            let want = x.partial_cmp(&x);
+            #[allow(clippy::eq_op)]
+            if pc != want || le != (x <= x) || ge != (x >= x) || lt || gt || eq != (x == x) || r.test_results.partial_cmp(&r.test_results) != want {
+                bad.push(format!("an individual with float total {x} compared with itself (same reference): partial_cmp = {pc:?}, <= {le}, >= {ge}, == {eq}; its total gives {want:?}"));
+            }
+            let e: EcIndividual<u8, TestResults<Error<f64>>> = EcIndividual::new(1, TestResults { results: vec![Error(x)], total_result: Error(x) });
+            let re = &e;
+            #[allow(clippy::eq_op)]
+            if re.partial_cmp(re) != want || (re <= re) != (x <= x) || (re >= re) != (x >= x) {
+                bad.push(format!("an individual with float error total {x} compared with itself (same reference): partial_cmp = {:?}; its total gives {want:?}", re.partial_cmp(re)));
+            }
+            let pf: EcIndividual<u8, f64> = EcIndividual::new(1, x);
+            let rp = &pf;
+            #[allow(clippy::eq_op)]
+            if rp.partial_cmp(rp) != want || (rp <= rp) != (x <= x) {
+                bad.push(format!("an individual with float result {x} compared with itself (same reference): partial_cmp = {:?}; its result gives {want:?}", rp.partial_cmp(rp)));
+            }
+        }
+        for &x in &vals {
+            let a: IndR = EcIndividual::new(1, TestResult::Score(Score(x)));
+            let r = &a;
+            #[allow(clippy::eq_op)]
+            if r.partial_cmp(r) != Some(Ordering::Equal) || !(r <= r) || !(r >= r) || r < r || r > r || r != r {
+                bad.push(format!("an individual with result Score({x}) compared with itself: partial_cmp = {:?}", r.partial_cmp(r)));
+            }
+        }
         // ---- (f) a TestResults value overwritten by clone_from is the value it was cloned from (total included)
         for (n1, n2) in [(0usize, 3usize), (3, 0), (2, 5), (4, 4)] {
             let src: TestResults<Score<i64>> = (0..n2 as i64).map(|k| 10 * k + 1).collect();
@@ -396,6 +429,47 @@ pub fn run(cfg: &Cfg) -> Report {
         for f in bad.into_iter().take(10) {
             rep.violate(json!({"case": "individuals and result collections compare / aggregate as their totals do", "what": f}));
         }
+    }
+    // ---- (i) `Ord`'s provided methods max / min / clamp on every result type, against the model (`res ord3`): which
+    // operand comes back (ties: max the second, min the first), clamp within valid bounds, panic on invalid bounds -
+    // in the type's own order (errors: reversed)
+    {
+        let mut d = crate::driver::Driver::spawn(&cfg.driver);
+        let pool: [i64; 7] = [i64::MIN, -3, 0, 5, 6, 9, i64::MAX];
+        let mut n_ord = 0u64;
+        fn o3<X: Ord + Clone + std::panic::RefUnwindSafe>(x: &X, lo: &X, hi: &X, sh: &dyn Fn(&X) -> String) -> String {
+            let mx = x.clone().max(lo.clone());
+            let mn = x.clone().min(lo.clone());
+            let (x2, l2, h2) = (x.clone(), lo.clone(), hi.clone());
+            let prev = std::panic::take_hook();
+            std::panic::set_hook(Box::new(|_| {}));
+            let c = std::panic::catch_unwind(std::panic::AssertUnwindSafe(move || x2.clamp(l2, h2)));
+            std::panic::set_hook(prev);
+            format!("{} {} {}", sh(&mx), sh(&mn), match c { Ok(v) => sh(&v), Err(_) => "panic".to_string() })
+        }
+        for &x in &pool { for &lo in &pool { for &hi in &pool {
+            n_ord += 1;
+            let rs = |tag: i64, v: i64| TestResults { results: vec![Score(tag)], total_result: Score(v) };
+            let re = |tag: i64, v: i64| TestResults { results: vec![Error(tag)], total_result: Error(v) };
+            let real = [
+                o3(&Score(x), &Score(lo), &Score(hi), &|a: &Score<i64>| a.0.to_string()),
+                o3(&Error(x), &Error(lo), &Error(hi), &|a: &Error<i64>| a.0.to_string()),
+                o3(&rs(1, x), &rs(2, lo), &rs(3, hi), &|a: &TestResults<Score<i64>>| format!("{}:{}", a.results[0].0, a.total_result.0)),
+                o3(&re(1, x), &re(2, lo), &re(3, hi), &|a: &TestResults<Error<i64>>| format!("{}:{}", a.results[0].0, a.total_result.0)),
+                o3(&EcIndividual::new(1i64, rs(0, x)), &EcIndividual::new(2i64, rs(0, lo)), &EcIndividual::new(3i64, rs(0, hi)), &|a: &EcIndividual<i64, TestResults<Score<i64>>>| format!("{}:{}", a.genome, a.test_results.total_result.0)),
+                o3(&EcIndividual::new(1i64, re(0, x)), &EcIndividual::new(2i64, re(0, lo)), &EcIndividual::new(3i64, re(0, hi)), &|a: &EcIndividual<i64, TestResults<Error<i64>>>| format!("{}:{}", a.genome, a.test_results.total_result.0)),
+            ].join(" | ");
+            let req = format!("res ord3 {x} {lo} {hi}");
+            let imp = d.ask(&req);
+            rep.case(&req, x != lo && lo != hi);
+            if real != imp {
+                // the model is the property here (theorems max_min_follow_cmp, clamp_spec, error_clamp): a difference is a violation
+                rep.violate(json!({"case": format!("max(x, lo), min(x, lo), clamp(x, lo, hi) for x = {x}, lo = {lo}, hi = {hi} on Score | Error | TestResults<Score> | TestResults<Error> | EcIndividual<_, TestResults<Score>> | EcIndividual<_, TestResults<Error>> (tag:total)"),
+                    "real": real, "spec": imp, "what": "Ord::max / min / clamp do not follow the type's order (errors: smaller is better; clamp panics exactly when lo > hi in that order)"}));
+                rep.disagree(json!({"case": req, "real": real, "impl": imp}));
+            }
+        } } }
+        rep.hit_n("max / min / clamp triples against the model", n_ord);
     }
     rep.exhaustive = true;
     rep.notes.push(format!("exhaustive: all 65536 i8 pairs and all {} i64 boundary pairs through the model; all i8 triples ({} transitivity instances) as model-free oracle; sampled: {n_sum} result vectors, {n_gen} generator runs", I64_POOL.len() * I64_POOL.len(), n_laws));
